@@ -296,6 +296,8 @@ def replay(ctx, rec):
         object_forms(ctx, list(libs_.items()), inp['smiles'], inp['calls'])
         return len(ctx.violations) == before
     lib = probe_scheme(libs_[name]) if inp['scheme'].endswith('~probe') else libs_[name]
+    if inp['scheme'].endswith(('~dup-last', '~dup-first')):
+        lib = synthetic(ctx, libs_[name], [inp['smiles']], inp['scheme'].split('~')[1])[0]
     check_one(ctx, inp['scheme'], lib, inp['smiles'], batch)
     if 'other_smiles' in inp:
         a = S.impl_descriptors(libs_[name], inp['smiles'])
